@@ -230,6 +230,10 @@ func (f *frame) instr(ins ssa.Instruction) {
 		hh := mapHasHeap(mt)
 		hs := "(Array Int (Array " + vc.sortOf(mt.Key()) + " Bool))"
 		f.st = vc.store(f.st, hh, hs, sx("store", vc.lookup(f.st, hh, hs), r, fmt.Sprintf("((as const (Array %s Bool)) false)", vc.sortOf(mt.Key()))))
+		if canonicalMapElem(mt.Elem()) {
+			_, _, hv, hvs := f.mapHeaps(mt)
+			f.st = vc.store(f.st, hv, hvs, sx("store", vc.lookup(f.st, hv, hvs), r, fmt.Sprintf("((as const (Array %s %s)) %s)", vc.sortOf(mt.Key()), vc.sortOf(mt.Elem()), vc.zeroOf(mt.Elem()))))
+		}
 		f.vals[x] = Val{t: r}
 	case *ssa.MakeChan:
 		r := f.allocRef("chan")
@@ -295,9 +299,25 @@ func (f *frame) mapStore(m string, mt *types.Map, k, v string) {
 
 func (f *frame) mapDelete(m string, mt *types.Map, k string) {
 	vc := f.vc
-	hh, hhs, _, _ := f.mapHeaps(mt)
+	hh, hhs, hv, hvs := f.mapHeaps(mt)
 	H := vc.lookup(f.st, hh, hhs)
 	f.st = vc.store(f.st, hh, hhs, sx("store", H, m, sx("store", sx("select", H, m), k, "false")))
+	// canonical form of the model: the value row holds the zero value at absent keys
+	if canonicalMapElem(mt.Elem()) {
+		V := vc.lookup(f.st, hv, hvs)
+		f.st = vc.store(f.st, hv, hvs, sx("store", V, m, sx("store", sx("select", V, m), k, vc.zeroOf(mt.Elem()))))
+	}
+}
+
+// canonicalMapElem: element types for which the model keeps "absent key => zero value" in the value heap.
+func canonicalMapElem(t types.Type) bool {
+	switch u := t.Underlying().(type) {
+	case *types.Slice, *types.Pointer, *types.Map, *types.Interface:
+		return true
+	case *types.Basic:
+		return u.Info()&(types.IsInteger|types.IsBoolean|types.IsString) != 0
+	}
+	return false
 }
 
 func (f *frame) mapHas(m string, mt *types.Map, k string, st *hstate) string {
@@ -714,6 +734,11 @@ func (f *frame) convert(x *ssa.Convert) {
 			vc.rowAxiom(row, func(i string) string { return sx("sat", s, i) })
 			f.st = vc.store(f.st, hn, hs, sx("store", h, arr, row))
 			f.setVal(x, to, sx("mk-slice", arr, "0", sx("slen", s), sx("slen", s)))
+			if et.Underlying().(*types.Basic).Kind() == types.Uint8 {
+				// string([]byte(s)) == s
+				vc.b2s("h", "d")
+				f.assume(eq(sx("b2sr", row, "0", sx("slen", s)), s))
+			}
 			return
 		}
 		f.vals[x] = f.val(x.X)
@@ -744,12 +769,14 @@ func (f *frame) bytesToString(h, b string) string {
 func (vc *VC) b2s(h, b string) string {
 	if !vc.declared["b2s"] {
 		vc.declared["b2s"] = true
-		vc.emit("(declare-fun b2s ((Array Int (Array Int Int)) Slice) Int)")
-		vc.emit("(assert (forall ((h (Array Int (Array Int Int))) (d Slice)) (! (= (slen (b2s h d)) (s-len d)) :pattern ((b2s h d)))))")
-		vc.emit("(assert (forall ((h (Array Int (Array Int Int))) (d Slice) (i Int)) (! (=> (and (<= 0 i) (< i (s-len d))) (= (sat (b2s h d) i) (select (select h (s-arr d)) (+ (s-off d) i)))) :pattern ((sat (b2s h d) i)))))")
+		// the string is a function of the array's row, the offset and the length only: equal rows give equal strings
+		vc.emit("(declare-fun b2sr ((Array Int Int) Int Int) Int)")
+		vc.emit("(define-fun b2s ((h (Array Int (Array Int Int))) (d Slice)) Int (b2sr (select h (s-arr d)) (s-off d) (s-len d)))")
+		vc.emit("(assert (forall ((r (Array Int Int)) (o Int) (n Int)) (! (=> (>= n 0) (= (slen (b2sr r o n)) n)) :pattern ((b2sr r o n)))))")
+		vc.emit("(assert (forall ((r (Array Int Int)) (o Int) (n Int) (i Int)) (! (=> (and (<= 0 i) (< i n)) (= (sat (b2sr r o n) i) (select r (+ o i)))) :pattern ((sat (b2sr r o n) i)))))")
 	}
 	t := sx("b2s", h, b)
-	if vc.qf > 0 {
+	if vc.qf > 0 && h != "h" {
 		key := "b2s:" + t
 		if !vc.declared[key] {
 			vc.declared[key] = true
